@@ -121,7 +121,21 @@ def run_unit(unit, repo='/repo', tier='quick', seed=0, only=None):
         res['extraction_log'] = log + [{'rule': 'R1', 'item': cfg['target'], 'what': 'harness module appended under #[cfg(kani)] to a scratch copy'}]
         res['extracted'] = [{'kind': 'fn', 'item': f, 'file': cfg['target'], 'line': 0} for f in cfg.get('functions', [])]
         res['trusted_base'] = list(cfg.get('trusted_base', []))
-        hs = [h for h in cfg['harnesses'] if (tier == 'thorough' or h.get('tier', 'quick') == 'quick')]
+        if cfg.get('native_precheck'):
+            # native confirmation of the facts the contract stubs encode (finite domain), on this machine
+            bdir = os.path.join(VERIF, 'build', 'kani-logs', unit)
+            os.makedirs(bdir, exist_ok=True)
+            exe = os.path.join(bdir, 'precheck')
+            c = subprocess.run(['rustc', '-O', '-o', exe, os.path.join(udir, cfg['native_precheck'])], capture_output=True, text=True)
+            if c.returncode != 0:
+                res['reason'] = 'native precheck does not compile: ' + c.stderr[-300:]
+                return res
+            c = subprocess.run([exe], capture_output=True, text=True)
+            if c.returncode != 0:
+                res['reason'] = 'native precheck failed (stub assumptions do not hold on this machine): ' + c.stdout[-300:]
+                return res
+            res['extraction_log'].append({'rule': 'stub-check', 'item': cfg['native_precheck'], 'what': c.stdout.strip()[:200]})
+        hs = [h for h in cfg['harnesses'] if (tier == 'thorough' or h.get('tier', 'quick') == 'quick') and h.get('tier') != 'never']
         if only:
             hs = [h for h in hs if h['name'] in only]
         logdir = os.path.join(VERIF, 'build', 'kani-logs', unit)
